@@ -1,10 +1,12 @@
-"""Rules that several properties rest on (a regression in one mechanism breaks all of them): each is run under every property for which it is a necessary
-condition, with the rule id of that property's own report.
+"""Rules that several properties rest on (a regression in one mechanism breaks all of them).  Two ways of sharing:
 
-tracking_owner       : the deque that tracks timed sources is created once; nothing else replaces or empties it (C11 C12 C31)
-ring_owners          : the step buffers rtc.spy / rtc.tuples are cleared or rebuilt only by the step wrappers and constructors, and a buffer that the chart's thread
-                       iterates directly has no writer that runs on other threads (C04 C05 C07 C09 C12 C18 C19 C20 C21)
-queue_internals      : the bookkeeping of queue.Queue objects (unfinished_tasks, all_tasks_done, the heap list) is touched only through put/get/task_done/clear (C06 C08 C13)
+SHARED   : rule functions defined here, each with its rule id and the properties under which it runs (table at the end of each group of definitions; the driver
+           `check` runs them before the property's own module, so that a later refusal of the shape-specific rules cannot hide their findings).
+BORROWED : rule ids that live inline in the module of another property; that module's check() is run with a view of the Run (`_Borrow`) that lets only those ids through.
+
+Rules defined here (see DESIGN 9.20, 9.22): TRACK.owner, RING.owners, QUEUE.internals, LIVE.snapshot, BOUND.buffers, TOKEN.pairing, SCAN.pop-on-match, STOP.liveness,
+BOOK.outputs-only, HSM-CURSOR.I1 (generators), FACTORY.identity, REG.per-chart, ENDS.recall-guard, SINGLETON.module-binding, ATOMIC.decorator-once, STEP.guard-reset,
+HOLDER.per-chart, ORDER.start-path, WRAP.no-lock, ATOMIC.no-memo, PROTO.caller-frame, DESC.no-capture, SPY.accessor-fresh.
 """
 import ast
 
